@@ -1,5 +1,7 @@
 import ObiVerif.Model.Demux
 import ObiVerif.Model.NgsFilter
+import ObiVerif.Model.NgsFilterBytes
+import ObiVerif.Model.DemuxState
 import ObiVerif.Driver.Util
 /-! line protocol for C12
 
@@ -20,6 +22,10 @@ multi <keep> <unid> <fmt> <style> <e> <indel> <K> K × [ marker ] <N> N × [ <id
       `H <res 1> @@ … || out <rec> ## … || unid <id>|<seq>|<error> ## …`
 sheet c <style> <nrec> nrec × [ <nf> nf × <field> ]   ReadNGSFilter on the CSV records (fields in hex)
 sheet o <nlines> nlines × <line>                     ReadNGSFilter on the lines of an old-format sheet
+sheetb <text>                                        ReadNGSFilter on the BYTES of a sheet (either format; `unmodelled`
+                                                     = a CSV field starting with a double quote)
+wk <K> K × [ marker ] W <n> n × [ <e> <indel> ]      n workers built one after the other on ONE library object:
+                                                     `<fp> <rp> ferr rerr fpi rpi` of every marker after each (` >> `)
 ```
 byte strings in hex (`-` = empty).  Result: `sheet-error`, `panic`, `fatal` or
 `ok <n> ## <id>|<seq>|k=v;k=v… ## …` with the annotations sorted by key; for `sheet`:
@@ -195,6 +201,39 @@ def pSheet : P String := do
     pure (showLib (NgsFilter.readSheetOld lines))
   | _ => failure
 
+/-! ## the sheet from its bytes; worker constructions on one library object -/
+
+def pSheetB : P String := do
+  let text ← pHex
+  let rest ← get
+  if !rest.isEmpty then failure
+  match NgsFilterBytes.readSheetBytes text with
+  | none => pure "unmodelled"
+  | some r => pure (showLib r)
+
+/-- a marker with the parameters the worker options write -/
+def pMarkerW : P NgsFilter.LMarker := do
+  let fp ← pStr; let rp ← pStr
+  let _ ← pInt; let _ ← pInt; let _ ← pNat; let _ ← pNat; let _ ← pInt; let _ ← pInt
+  let _ ← pMode
+  let ferr ← pInt; let rerr ← pInt; let fpi ← pNat; let rpi ← pNat
+  let ns ← pNat
+  let _ ← rep pSample ns
+  pure { fp := fp, rp := rp, ferr := ferr, rerr := rerr, fpi := fpi == 1, rpi := rpi == 1 }
+
+def pWk : P String := do
+  let k ← pNat
+  let ms ← rep pMarkerW k
+  pLit "W"
+  let n ← pNat
+  let ws ← rep (do let e ← pInt; let i ← pNat; pure (e, i == 1)) n
+  let rest ← get
+  if !rest.isEmpty then failure
+  let showM (m : NgsFilter.LMarker) : String :=
+    joinSp [hexS m.fp, hexS m.rp, toString m.ferr, toString m.rerr, b01 m.fpi, b01 m.rpi]
+  let showL (l : NgsFilter.Lib) : String := " ## ".intercalate (sortBy (fun a b => decide (a ≤ b)) (l.map showM))
+  pure (" >> ".intercalate ((DemuxState.runWorkers (DemuxState.fresh ms) ws).map showL))
+
 def run (line : String) : String :=
   match words line with
   | ["ham", a, b] =>
@@ -227,6 +266,14 @@ def run (line : String) : String :=
     | none => "bad-op"
   | "sheet" :: rest =>
     match pSheet.run rest with
+    | some (r, _) => r
+    | none => "bad-op"
+  | "sheetb" :: rest =>
+    match pSheetB.run rest with
+    | some (r, _) => r
+    | none => "bad-op"
+  | "wk" :: rest =>
+    match pWk.run rest with
     | some (r, _) => r
     | none => "bad-op"
   | _ => "bad-op"
